@@ -6,6 +6,7 @@ import Masscanned.Proofs.C12.Bounce
 import Masscanned.Thm.C14
 import Masscanned.Thm.C15
 import Masscanned.Thm.C17
+import Masscanned.Proofs.Texts.Reply
 namespace Masscanned.C12
 open Masscanned Spec
 
@@ -127,12 +128,7 @@ def httpHead : Bytes := [72, 84, 84, 80, 47, 49, 46, 49, 32, 52, 48, 49]
 
 theorem http_shape {r : Bytes} (h : IsHttp r) : ∃ rest, r = httpHead ++ rest := by
   obtain ⟨env, rfl⟩ := h
-  unfold httpReplyBytes
-  have e : "HTTP/1.1 401 Unauthorized\nServer: nginx/1.14.2\nDate: ".toUTF8.toList =
-      httpHead ++ " Unauthorized\nServer: nginx/1.14.2\nDate: ".toUTF8.toList := by decide +kernel
-  rw [e]
-  simp only [List.append_assoc]
-  exact ⟨_, rfl⟩
+  exact Texts.httpReply_status env
 
 /-! ### STUN -/
 
